@@ -89,12 +89,14 @@ K1_TYPES = "XMsg XInner XEnum XChoice XSet XList XSetOf XSetI XNest XBits XTime 
 K1_SEEDS = {"XOD": ["300a0703616263190368656c", "30051903414243"]}
 
 VARIANTS = [
-    # (tag, asn1c options, extra cflags for skeletons AND generated code, tiers)
-    ("native", ("-fcompound-names",), (), ("quick", "thorough")),
-    ("wide-indirect", ("-fcompound-names", "-fwide-types", "-findirect-choice"), (), ("quick", "thorough")),
-    ("noconstr", ("-fcompound-names", "-fno-constraints"), (), ("thorough",)),
-    ("nooer", ("-fcompound-names", "-no-gen-OER"), ("-DASN_DISABLE_OER_SUPPORT",), ("thorough",)),
-    ("noper", ("-fcompound-names", "-no-gen-PER"), ("-DASN_DISABLE_PER_SUPPORT",), ("thorough",)),
+    # (tag, asn1c options, extra cflags for skeletons AND generated code, tiers, regex of skeleton files left out)
+    ("native", ("-fcompound-names",), (), ("quick", "thorough"), None),
+    ("wide-indirect", ("-fcompound-names", "-fwide-types", "-findirect-choice"), (), ("quick", "thorough"), None),
+    # "-fno-constraints" is not a variant: for a member with a subtype constraint the unchanged asn1c then emits a member table
+    # that refers to asn_PER_memb_*/asn_OER_memb_* records it no longer declares (uncompilable; a code-generation matter, not C19)
+    # the last field: skeleton sources asn1c leaves out with that option (they do not compile with the matching -D)
+    ("nooer", ("-fcompound-names", "-no-gen-OER"), ("-DASN_DISABLE_OER_SUPPORT",), ("thorough",), r"(^oer_|_oer\.c$)"),
+    ("noper", ("-fcompound-names", "-no-gen-PER"), ("-DASN_DISABLE_PER_SUPPORT",), ("thorough",), None),
 ]
 
 SKEL_EXCLUDE_C19 = {"converter-example.c"}
@@ -136,7 +138,7 @@ def write_pdu_table(outdir, mods):
         f.write("  {0, 0, 0}\n};\n")
 
 
-def build_variant(asn1c, skel, root, tag, opts, xcflags, mods):
+def build_variant(asn1c, skel, root, tag, opts, xcflags, mods, skip_rx=None):
     """generate + compile one variant in both builds.  -> dict(dir, ro_exe, lib, thr_exe, nfiles) ; raises BuildError"""
     d = os.path.join(root, tag)
     gen = os.path.join(d, "gen")
@@ -151,7 +153,7 @@ def build_variant(asn1c, skel, root, tag, opts, xcflags, mods):
     open(os.path.join(gen, "c19_canary.c"), "w").write(CANARY_C)
     gsrcs = sorted(f for f in os.listdir(gen) if f.endswith(".c"))
     sk = os.path.join(REPO, "skeletons")
-    ssrcs = sorted(f for f in os.listdir(sk) if f.endswith(".c") and f not in SKEL_EXCLUDE_C19)
+    ssrcs = sorted(f for f in os.listdir(sk) if f.endswith(".c") and f not in SKEL_EXCLUDE_C19 and not (skip_rx and re.search(skip_rx, f)))
     inc = "-I%s -I%s" % (gen, sk)
     mk = ["CC=gcc", "XC=" + " ".join(xcflags), "RO=%s $(XC) %s" % (" ".join(RO_CFLAGS), inc), "TH=%s $(XC) %s" % (" ".join(THR_CFLAGS), inc),
           "DRV=" + os.path.join(HARNESS, "c19drv.c"), "all: ro/c19drv th/c19drv"]
